@@ -34,6 +34,7 @@ type Verifier struct {
 	strLits     map[string]Term
 	substrAx    bool
 	funcIDs     map[*ssa.Function]Term
+	defFuns     map[string]string
 
 	derived map[string]int // embedded struct field -> index (global, stable within a run)
 
@@ -192,6 +193,7 @@ func (v *Verifier) verifyFunction(key string) (res *FuncResult) {
 	v.strLits = map[string]Term{}
 	v.substrAx = false
 	v.funcIDs = map[*ssa.Function]Term{}
+	v.defFuns = map[string]string{}
 	baseCounter = 0
 	defer func() {
 		if r := recover(); r != nil {
